@@ -296,7 +296,7 @@ PROPS.update({
         "stores form a chain from the initial to the final value), c04_reads_current, c04_next_now_current, c04_observed_monotone; "
         "c04_lin_step / c04_lin_run (linearizability stated outright: the atomic one-cell specification AS.apply run on the calls in the order of their linearization points "
         "ends in the abstraction of the concrete final state, in what every subscriber has observed, and gives every call the result it returns — every schedule, any number of threads)",
-        [{"name": "conc"}], extra_tb=[LOCKS]),
+        [{"name": "conc"}, {"name": "obs"}], extra_tb=[LOCKS]),
         claim=("Lean 4 theorems about the lock-level model, for every number of threads and every schedule: while a writer is in its critical section nobody holds the read lock and nobody else writes, and vice versa "
                "(c04_mutual_exclusion); only the segment in which a set, a set_if_not_eq whose value differs, or an update takes the write lock changes the value — to the argument, resp. the closure applied to the current value, so no "
                "update is lost — and set / set_if_not_eq record the value they replaced as the call's result, an equal set_if_not_eq changes nothing (c04_value_frame, c04_store_records_prev); hence along every run the "
@@ -321,7 +321,7 @@ ENGINES = [
      "kind_free_text": "writer on its own thread against plain and batched subscriber streams and a batched skip(1) adapter polled on three other threads (a poll is no longer atomic w.r.t. updates: the Lagged arms inside the drain loops); implementation-side oracles only (strict applicability, replica = final contents, End iff dropped) — the interleaving is not recorded, so there is no model trace"},
     {"name": "adp", "path": "harness/src/eng_adp.rs", "serves_properties": ["C09", "C10", "C11", "C12", "C13", "C14", "C15"],
      "kind_free_text": "differential correspondence (real adapter pipelines vs Lean model Pipe) + implementation-side oracles on transparent taps between the stages"},
-    {"name": "obs", "path": "harness/src/eng_obs.rs", "serves_properties": ["C01", "C02", "C03", "C19"],
+    {"name": "obs", "path": "harness/src/eng_obs.rs", "serves_properties": ["C01", "C02", "C03", "C04", "C19"],
      "kind_free_text": "differential correspondence (real Observable/SharedObservable/Subscriber, default lock flavour, vs Lean model OWorld) + specification-level oracle"},
     {"name": "conc", "path": "harness/src/eng_conc.rs", "serves_properties": ["C01", "C02", "C03", "C04"],
      "kind_free_text": "real threads driven through every pause-point interleaving by a director (forced schedules) + free-running rounds; traces replayed on the Lean lock-level model"},
